@@ -84,6 +84,7 @@ def sparse_unit(state, cb, verbose, head=False):
     contracts.update(LOG_REC)
     if cb == 'exit':
         contracts.update(CLEAR_STATUS)
+        contracts[tname] = exit_clears(contracts[tname])
     wd = (['W_HEAD=' + state] if head else ([] if state == 'Bare' else ['W_STATE=' + state])) + (['W_VERBOSE'] if verbose else [])
     return dict(id='sparse.%s%s.%s' % (state, '.verbose' if verbose else '', fn), witness=WSP, witness_defines=wd,
                 recs=recs, opaque=OPAQUE, props=['C16', 'C05', 'C01', 'C18'] + (['C03'] if 'Guard' in fn else []) + (['C09'] if 'Plan' in fn else []),
